@@ -16,8 +16,10 @@ import (
 	"sort"
 	"strconv"
 	"strings"
+	"time"
 
 	"github.com/regclient/regclient/internal/verif/simnet"
+	"github.com/regclient/regclient/internal/verif/simrt"
 )
 
 // Digest computes "<alg>:<hex>" of b.
@@ -155,9 +157,12 @@ type Knobs struct {
 	BlobRedirectScheme    string // scheme of the redirect (default https)
 	ManifestPutNoLocation bool
 	DeleteBlob            bool
-	NoRangeOnJSON         bool   // manifests and listings ignore Range (as most real registries do)
-	PutKeepsThenFails     int    // >0: the first PUT carrying a body stores that many bytes of it in the session and fails with 502 (a proxy cut the transfer)
-	MountDeclineFrom      string // mounts whose source repository starts with this prefix are declined (per-repository permissions)
+	NoRangeOnJSON         bool          // manifests and listings ignore Range (as most real registries do)
+	PutKeepsThenFails     int           // >0: the first PUT carrying a body stores that many bytes of it in the session and fails with 502 (a proxy cut the transfer)
+	RateLimit             int           // >0: manifest replies carry RateLimit-Limit / RateLimit-Remaining
+	RateRemain0           int           // remaining count at simulated time zero
+	RateRecover           time.Duration // the remaining count grows by one per this much simulated time
+	MountDeclineFrom      string        // mounts whose source repository starts with this prefix are declined (per-repository permissions)
 }
 
 // Reg is one registry host.
@@ -243,6 +248,18 @@ var pathRe = regexp.MustCompile(`^/v2/(.+)/(manifests|blobs|tags|referrers)/(.*)
 // header (the client resumes truncated bodies with it).
 func (g *Reg) Serve(req *simnet.Request) *simnet.Response {
 	r := g.serve(req)
+	if g.K.RateLimit > 0 && strings.Contains(req.Path, "/manifests/") && (req.Method == "GET" || req.Method == "HEAD") && r.Status == 200 {
+		// pull rate limit headers as Docker Hub sends them; the remaining count recovers with (simulated) time
+		remain := g.K.RateRemain0
+		if s := simrt.Cur(); s != nil && g.K.RateRecover > 0 {
+			remain += int(s.Elapsed() / g.K.RateRecover)
+		}
+		if remain > g.K.RateLimit {
+			remain = g.K.RateLimit
+		}
+		r.Header.Set("RateLimit-Limit", strconv.Itoa(g.K.RateLimit)+";w=21600")
+		r.Header.Set("RateLimit-Remaining", strconv.Itoa(remain)+";w=21600")
+	}
 	if req.Method == "GET" && r.Status == 200 && req.Header.Get("Range") != "" && r.Header.Get("Content-Range") == "" && !g.K.NoRangeOnJSON {
 		rr := ServeBytes(req, r.Body, "")
 		for k, v := range r.Header {
